@@ -92,7 +92,7 @@ def _d(seed, label):
     return int.from_bytes(hashlib.sha256(b"c19/%d/%s" % (seed, label.encode())).digest(), "big") % (M.N - 2) + 1
 
 
-OPS = ["sm2_keygen", "sm2_sign", "sm2_sign_ctx", "sm2_decrypt", "sm2_decrypt_bad", "sm2_ecdh", "sm2_import_der", "sm2_import_bad", "sm2_import_mismatch", "tls_ctx_keys", "tls_ctx_keys",
+OPS = ["sm2_keygen", "sm2_sign", "sm2_sign_ctx", "sm2_decrypt", "sm2_decrypt_bad", "sm2_ecdh", "sm2_import_der", "sm2_import_bad", "sm2_import_mismatch", "tls_ctx_keys", "tls_ctx_keys", "hex_key_bad",
        "pkcs8_open", "pkcs8_wrong_password", "sm9_sign", "sm9_decrypt", "sm9_keygen",
        "hs_tlcp", "hs_tls12", "hs_tls13", "hs_tlcp_mutual", "hs_tls12_mutual", "hs_tls13_mutual",
        "hs_tlcp_untrusted", "hs_tls12_untrusted", "hs_tls13_untrusted", "hs_tls12_badclient",
@@ -311,6 +311,23 @@ def ops(case, ctx):
                         dll.vh_fclose(fp)
                     if r == 1:
                         ctx.note("mismatch-imported")      # C12's business; the error path was not reached in this case
+                elif op == "hex_key_bad":
+                    # key material given as hex text (what the command line tools do with -key / -iv) with a typing error: odd length or a
+                    # character outside [0-9a-fA-F]; the refusal must not echo the text
+                    kb = hashlib.shake_128(b"c19 hexkey %d" % seed).digest(16 + (seed % 3) * 8)
+                    secrets = {"key given as hex": kb}
+                    text = kb.hex().encode() if seed & 8 else kb.hex().upper().encode()
+                    how = seed % 4
+                    if how == 0:
+                        text = text[:-1]
+                    elif how == 1:
+                        text = text + b"0"
+                    elif how == 2:
+                        text = text[:-1] + b"g"
+                    else:
+                        text = text[:len(text) // 2] + b" " + text[len(text) // 2 + 1:]
+                    out = Buf(len(text), fill=0); ol = ctypes.c_size_t(0)
+                    l.hex_to_bytes(Buf.of(text), len(text), out, ctypes.byref(ol))
                 elif op == "tls_ctx_keys":
                     # loading certificate chains and password-protected keys into a TLS_CTX: success and every refusal (wrong
                     # password, key that does not match its certificate, missing file, single-certificate chain for TLCP)
